@@ -18,6 +18,7 @@ import (
 	"github.com/jdillenkofer/pithos/internal/lifecycle"
 	"github.com/jdillenkofer/pithos/internal/storage/database"
 	"github.com/jdillenkofer/pithos/internal/storage/metadatapart/partstore"
+	"github.com/jdillenkofer/pithos/internal/verifhook"
 )
 
 type filesystemPartStore struct {
@@ -89,6 +90,7 @@ func (bs *filesystemPartStore) PutPart(ctx context.Context, tx database.Tx, part
 			return err
 		}
 		tempName := tempFile.Name()
+		verifhook.At("fs.put.tempcreated", tx, tempName)
 		if _, err = ioutils.Copy(tempFile, reader); err != nil {
 			_ = tempFile.Close()
 			_ = os.Remove(tempName)
@@ -98,6 +100,7 @@ func (bs *filesystemPartStore) PutPart(ctx context.Context, tx database.Tx, part
 			_ = os.Remove(tempName)
 			return err
 		}
+		verifhook.At("fs.put.tempclosed", tx, tempName)
 
 		backupName := filename + ".txbackup." + ulid.Make().String()
 		backupCreated := false
@@ -108,6 +111,7 @@ func (bs *filesystemPartStore) PutPart(ctx context.Context, tx database.Tx, part
 			} else if !errors.Is(err, fs.ErrNotExist) {
 				return err
 			}
+			verifhook.At("fs.put.between", tx, filename)
 			if err := os.Rename(tempName, filename); err != nil {
 				if backupCreated {
 					_ = os.Rename(backupName, filename)
